@@ -58,6 +58,23 @@ def objective_menu(ids):
     return out
 
 
+def objective_in_cycle(rxns, mets, obj):
+    """Does an objective reaction take part in an internal cycle (its column depends on the other internal columns)?"""
+    from fractions import Fraction as F
+
+    ints = [r for r in rxns if len(r[1]) > 1]
+    for rid in obj:
+        if rid not in [r[0] for r in ints]:
+            continue
+        full = [[F(r[1].get(m, 0)) for r in ints] for m in mets]
+        rest = [[F(r[1].get(m, 0)) for r in ints if r[0] != rid] for m in mets]
+        if not rest[0]:
+            continue
+        if exactlp._rank(rest) == exactlp._rank(full):
+            return True
+    return False
+
+
 def _val(x):
     return float(x) if not isinstance(x, str) else x
 
@@ -77,7 +94,7 @@ def check_model(net, bounds, P, stats):
     out = []
     patterns = None
     n_int = len(oracles.internal_ids(base))
-    for obj, direction in objective_menu(ids):
+    for obj, direction in objective_menu(ids)[:P.get("objs", 99)]:
         fba = exactlp.FBA(mets, rxns, obj, direction)
         st, z, _ = fba.optimum()
         if st != OPT:
@@ -96,6 +113,8 @@ def check_model(net, bounds, P, stats):
             def bad(check, detail, **extra):
                 s = {"check": check, "loopless": opts["loopless"], "pfba": opts["pfba_factor"] is not None,
                      "fraction": f, "direction": direction, "list": opts["reaction_list"]}
+                if opts["loopless"]:
+                    s["objective_in_cycle"] = objective_in_cycle(rxns, mets, obj)
                 s.update(extra)
                 out.append((s, case, f"{detail}\nmodel: {rxns}\nobjective {obj} {direction} options {opts}"))
 
@@ -194,7 +213,10 @@ def replay(case):
 def explore(ctx):
     P = params(ctx.tier)
     n_self = exactlp.selftest(limit=3000)
-    passes = [(P, None)] if ctx.tier == "quick" else thorough_passes()
+    # quick also covers the smallest networks with alternative routes (two boundary + two internal reactions)
+    routes = (dict(nm=3, nr=4, K=(-1, 0, 1), d=1, menu=[(0, 10), (-10, 10), (-10, 0), (-10, -2), (2, 10)], opt_dev=1, objs=2),
+              lambda n: len(n) == 4 and sum(1 for c in n if families.is_boundary(c)) == 2)
+    passes = [(P, None), routes] if ctx.tier == "quick" else thorough_passes()
     payloads, nets = [], []
     for PP, flt in passes:
         ns = [n for n in families.networks(PP["nm"], PP["nr"], PP["K"]) if flt is None or flt(n)]
